@@ -106,9 +106,11 @@ Proof.
             * rewrite (leave_clock _ _ _ _ H). split; [lia|intros _; exact H].
           + destruct (IH _ _ _ _ _ H) as [M T]. split; [exact M|exact T].
         - destruct (IH _ _ _ _ _ H) as [M T]. split; [exact M|exact T]. }
-      destruct Tail as [MT ST]. split; [rewrite <- C1 in M2; lia|].
-      intros Q. rewrite (S2 (quiet_mono _ _ _ ltac:(lia) Q)).
-      cbn iota. rewrite RS. rewrite (S3 (quiet_mono _ _ _ MT Q)). exact (ST Q).
+      destruct Tail as [MT ST]. split; [rewrite C1 in M2; lia|].
+      intros Q.
+      assert (Q3 : quiet k1 s3) by (apply (quiet_mono k1 s3 s'); [exact MT|exact Q]).
+      assert (Q2 : quiet k1 s2) by (apply (quiet_mono k1 s2 s3); [exact M3|exact Q3]).
+      rewrite (S2 Q2). cbn iota. rewrite RS. rewrite (S3 Q3). exact (ST Q).
     + assert (Tail : (clock s2 <= clock s')%N /\
                      (quiet k1 s' ->
                       (if best <? - v1 then
@@ -125,9 +127,106 @@ Proof.
             * rewrite (leave_clock _ _ _ _ H). split; [lia|intros _; exact H].
           + destruct (IH _ _ _ _ _ H) as [M T]. split; [exact M|exact T].
         - destruct (IH _ _ _ _ _ H) as [M T]. split; [exact M|exact T]. }
-      destruct Tail as [MT ST]. split; [rewrite <- C1 in M2; lia|].
-      intros Q. rewrite (S2 (quiet_mono _ _ _ MT Q)). cbn iota. rewrite RS. exact (ST Q).
+      destruct Tail as [MT ST]. split; [rewrite C1 in M2; lia|].
+      intros Q.
+      assert (Q2 : quiet k1 s2) by (apply (quiet_mono k1 s2 s'); [exact MT|exact Q]).
+      rewrite (S2 Q2). cbn iota. rewrite RS. exact (ST Q).
+Qed.
+
+Lemma ab_moves_sim depth ply alpha beta s v s' :
+  ab_moves zt osort rec1 b depth ply alpha beta s = Ok (v, s') ->
+  (clock s <= clock s')%N /\ (quiet k1 s' -> ab_moves zt osort rec2 b depth ply alpha beta s = Ok (v, s')).
+Proof.
+  intros H. unfold ab_moves in *.
+  destruct (generate_moves zt b AllMoves) as [|g0 gs] eqn:G.
+  { destruct (is_check b (to_move b)); rewrite (leave_clock _ _ _ _ H); (split; [lia|intros _; exact H]). }
+  destruct (rank_moves s ply (g0 :: gs)) as [ranked| |]; try discriminate.
+  destruct (do_sort osort ranked s) as [sorted s1] eqn:DS.
+  assert (C1 : clock s1 = clock s) by (change s1 with (snd (sorted, s1)); rewrite <- DS; reflexivity).
+  destruct sorted as [|m0 rest]; [discriminate|].
+  destruct (insert_into_cur_line s1 ply m0) as [s2| |] eqn:E2; try discriminate.
+  pose proof (insert_cur_clock _ _ _ _ E2) as C2.
+  set (s3 := if negb (order_heuristic m0 =? POS_INF) then set_principle_variation s2 else s2) in *.
+  assert (C3 : clock s3 = clock s2) by (unfold s3; destruct (negb _); reflexivity).
+  destruct (rec1 m0 (depth - 1) (ply + 1) (- beta) (- alpha) true s3) as [[v0 s4]| |] eqn:E4; try discriminate.
+  destruct (Hsim _ _ _ _ _ _ _ _ _ E4) as [M4 S4].
+  assert (Tail : (clock s4 <= clock s')%N /\
+                 (quiet k1 s' ->
+                  (if (alpha <? - v0) && (beta <=? - v0) then leave b (- v0) s4
+                   else if alpha <? - v0 then ab_loop rec2 b depth ply beta rest (- v0) (- v0) (set_principle_variation s4)
+                        else ab_loop rec2 b depth ply beta rest alpha (- v0) s4) = Ok (v, s'))).
+  { destruct ((alpha <? - v0) && (beta <=? - v0)).
+    - rewrite (leave_clock _ _ _ _ H). split; [lia|intros _; exact H].
+    - destruct (alpha <? - v0); destruct (ab_loop_sim _ _ _ _ _ _ _ _ _ H) as [M T]; (split; [exact M|exact T]). }
+  destruct Tail as [MT ST]. split; [lia|].
+  intros Q. assert (Q4 : quiet k1 s4) by (apply (quiet_mono k1 s4 s'); [exact MT|exact Q]).
+  rewrite (S4 Q4). exact (ST Q).
+Qed.
+
+Lemma ab_body_sim depth ply alpha beta allow_null s v s' :
+  ab_body zt osort rec1 qrec b depth ply alpha beta allow_null s = Ok (v, s') ->
+  (clock s <= clock s')%N /\ (quiet k1 s' -> ab_body zt osort rec2 qrec b depth ply alpha beta allow_null s = Ok (v, s')).
+Proof.
+  intros H. unfold ab_body in *.
+  destruct ((depth =? 0) && negb (is_check b (to_move b))).
+  { rewrite (Hq _ _ _ _ _ _ H). cbn [clock with_table]. split; [lia|intros _; exact H]. }
+  set (depth' := if depth =? 0 then depth + 1 else depth) in *.
+  set (alpha' := Z.max alpha (- MATE_SCORE + ply)) in *.
+  set (beta' := Z.min beta (MATE_SCORE - ply)) in *.
+  destruct (beta' <=? alpha'); [rewrite (leave_clock _ _ _ _ H); split; [lia|intros _; exact H]|].
+  destruct (allow_null && (NULL_MIN_DEPTH <=? depth') && negb (is_check b (to_move b))).
+  - destruct (rec1 (with_to_move b (opposite (to_move b))) (depth' - NULL_REDUCTION) (ply + NULL_PLY_OFFSET)
+                   (- beta') (- beta' + 1) false s) as [[vn sn]| |] eqn:EN; try discriminate.
+    destruct (Hsim _ _ _ _ _ _ _ _ _ EN) as [Mn Sn].
+    assert (Tail : (clock sn <= clock s')%N /\
+                   (quiet k1 s' -> (if beta' <=? - vn then leave b beta' sn else ab_moves zt osort rec2 b depth' ply alpha' beta' sn) = Ok (v, s'))).
+    { destruct (beta' <=? - vn).
+      - rewrite (leave_clock _ _ _ _ H). split; [lia|intros _; exact H].
+      - destruct (ab_moves_sim _ _ _ _ _ _ _ H) as [M T]. split; [exact M|exact T]. }
+    destruct Tail as [MT ST]. split; [lia|].
+    intros Q. assert (Qn : quiet k1 sn) by (apply (quiet_mono k1 sn s'); [exact MT|exact Q]).
+    rewrite (Sn Qn). exact (ST Q).
+  - apply ab_moves_sim. exact H.
 Qed.
 
 End Node.
+
+(* ---- the node function itself *)
+Lemma out_of_time_quiet_false k s :
+  quiet k (snd (out_of_time k s)) -> fst (out_of_time k s) = false.
+Proof.
+  unfold out_of_time, quiet. cbn [fst snd clock with_clock]. destruct k as [kk|]; [|reflexivity].
+  intros H. apply N.leb_gt. lia.
+Qed.
+
+Theorem alpha_beta_sim fuel : sim (alpha_beta zt osort k1 fuel) (alpha_beta zt osort k2 fuel).
+Proof.
+  induction fuel as [|f IH]; intros b d ply a be n s v s' H; cbn [alpha_beta] in *; [discriminate|].
+  assert (Cs : clock (snd (out_of_time k1 s)) = (clock s + 1)%N) by reflexivity.
+  assert (Same : snd (out_of_time k2 s) = snd (out_of_time k1 s)) by reflexivity.
+  destruct (out_of_time k1 s) as [e1 s1] eqn:E1. cbn [snd] in Cs, Same.
+  destruct (out_of_time k2 s) as [e2 s2] eqn:E2. cbn [snd] in Same. subst s2.
+  destruct e1.
+  - (* expired under k1: the result state is not quiet *)
+    inversion H; subst. split; [lia|].
+    intros Q. exfalso.
+    assert (F : fst (out_of_time k1 s) = false) by (apply out_of_time_quiet_false; rewrite E1; exact Q).
+    rewrite E1 in F. discriminate.
+  - set (s3 := with_maxply (node_searched s1) (Z.max (max_ply (node_searched s1)) ply)) in *.
+    assert (C3 : clock s3 = clock s1) by reflexivity.
+    destruct (is_threefold_repetition (table s3) b) eqn:R.
+    + inversion H; subst. split; [rewrite C3; lia|].
+      intros Q. assert (F : fst (out_of_time k2 s) = false).
+      { apply out_of_time_quiet_false. rewrite E2. cbn [snd]. apply (quiet_le k1 k2); [exact Hk|].
+        apply (quiet_mono k1 s1 s3); [rewrite C3; lia|exact Q]. }
+      rewrite E2 in F. cbn [fst] in F. subst e2. reflexivity.
+    + destruct (ab_body_sim (alpha_beta zt osort k1 f) (alpha_beta zt osort k2 f) (quiesce zt osort f) IH (quiesce_clock f)
+                            b d ply a be n _ _ _ H) as [M T].
+      cbn [clock with_table] in M. split; [rewrite C3 in M; lia|].
+      intros Q. assert (F : fst (out_of_time k2 s) = false).
+      { apply out_of_time_quiet_false. rewrite E2. cbn [snd]. apply (quiet_le k1 k2); [exact Hk|].
+        apply (quiet_mono k1 s1 s'); [rewrite C3 in M; exact M|exact Q]. }
+      rewrite E2 in F. cbn [fst] in F. subst e2. exact (T Q).
+Qed.
+
 End S.
